@@ -37,6 +37,7 @@ def gen_doc(R, scoped=False, maxlayers=3):
     G = DocGen(R, refs=False, families=0.2)
     G.attrpath_top_only = True
     body = G.mset(0, 2)
+    if R.random() < 0.25: body = 'rec ' + body
     shapes = [k for k, v in WRAPPERS.items() if v[2] or not scoped]
     shape = R.choice(shapes)
     nl = R.choice([0, 0, 1, 1, 2, 3][:maxlayers + 3]) if WRAPPERS[shape][2] else 0
